@@ -671,7 +671,7 @@ def run(chk):
         chk.note_case((e[1], e[2]), nontrivial=len(e[1]) > 1 or len(e[1][0]["nodes"]) > 1)
     # ---- (ii)
     straces = fixed_sessions()
-    nses = chk.pick(120, 1500)
+    nses = chk.pick(120, 1000)
     for i in range(nses):
         straces.append(gen_session(chk, rng, i, big=(i % 30 == 0)))
     alone = [0] * 24
